@@ -106,4 +106,8 @@ class Driver(Device, metaclass=DriverMeta):
                     self.send_message(v.to_def_message())
 
         if isinstance(msg, message.news.NewVector):
-            self._vectors[msg.name].from_new_message(msg)
+            vector = self._vectors.get(msg.name)
+            if vector is None:
+                logger.warning("Driver: no property %s to write to", msg.name)
+            else:
+                vector.from_new_message(msg)
